@@ -21,7 +21,8 @@ FMT = '%{filename}|%{cmdline}|%{tid_kernel}|%{snoopy_threads}'
 
 
 def run_fork(arg):
-    bld, stop_at, kind, victims, out, child_kind, root, idx = arg
+    bld, stop_at, kind, victims, out, child_kind, root, idx = arg[:8]
+    heap = len(arg) > 8 and arg[8]          # C16's fork arm: allocator monitor loaded, child reports Snoopy's live blocks
     work = os.path.join(root, "f%04d" % idx)
     conf = os.path.join(work, "conf")
     os.makedirs(conf, exist_ok=True)
@@ -30,6 +31,9 @@ def run_fork(arg):
     with open(os.path.join(conf, "snoopy.ini"), "w") as f:
         f.write('[snoopy]\nmessage_format = "%s"\noutput = %s\n' % (FMT, outspec))
     env = {"PATH": "/usr/bin:/bin", "LD_PRELOAD": "%s %s" % (bld.lib, os.path.join(HBIN, "libvrec.so")), "VREC_DEVLOG": os.path.join(work, "nodevlog")}
+    if heap:
+        env["LD_PRELOAD"] += " " + os.path.join(HBIN, "libvheap.so")
+        env["VSCHED_CHILDHEAP"] = os.path.join(work, "childheap")
     try:
         r = subprocess.run([os.path.join(HBIN, "vsched"), "--mount", "%s:%s" % (conf, SYSCONF), "--mode", "fork", "--log", logp, "--calls", "1",
                             "--victims", str(victims), "--stop-at", str(stop_at), "--stop-kind", kind, "--child-kind", str(child_kind)],
@@ -47,6 +51,14 @@ def run_fork(arg):
     if ev is None:
         return dict(no_event=1, rc=r.returncode, stderr=r.stderr.decode("latin-1")[-300:], arg=arg[1:6])
     ev["out"] = out
+    if heap:
+        try:
+            with open(os.path.join(work, "childheap")) as f:
+                hp = json.loads(f.read())
+                ev["child_heap"] = hp["snoopy_live"]
+                ev["child_blocks"] = hp["blocks"]
+        except (OSError, ValueError):
+            ev["child_heap"] = None
     import shutil
     shutil.rmtree(work, ignore_errors=True)
     return ev
